@@ -59,9 +59,24 @@ func (m *e2Machine) rawRequest(a pt.Action, errs *[]string, mu *sync.Mutex) {
 			note(fmt.Sprintf("c%d sync: %v", a.R, err))
 		}
 	case "patch":
-		_, err := m.sys.Svc().PatchDocument(gocontext.Background(), &model.PatchMessage{Collection: c.coll, Key: a.T, Json: a.V})
+		existed := false
+		for _, dt := range m.readStore() {
+			if dt.key == a.T && len(dt.ops) > 0 {
+				existed = true
+			}
+		}
+		resp, err := m.sys.Svc().PatchDocument(gocontext.Background(), &model.PatchMessage{Collection: c.coll, Key: a.T, Json: a.V})
 		if err != nil {
 			note(fmt.Sprintf("patch: %v", err))
+			if existed {
+				mu.Lock()
+				m.patchRefused = append(m.patchRefused, fmt.Sprintf("PatchDocument(%s, %s): %v", a.T, a.V, err))
+				mu.Unlock()
+			}
+		} else {
+			mu.Lock()
+			m.patched = append(m.patched, patchDone{coll: c.coll, key: a.T, target: a.V, answer: resp.GetJson()})
+			mu.Unlock()
 		}
 	case "mkcoll": // CreateCollection(a.T) as an administrator would call it, possibly several at once
 		if err := m.sys.MakeCollection(a.T); err != nil {
@@ -355,6 +370,44 @@ func init() {
 				if has(sa.AtEnd, "snapshots") {
 					if v := m.checkSnapshots(); v != nil {
 						return v
+					}
+				}
+				if has(sa.AtEnd, "patched") && len(m.patchRefused) > 0 {
+					// a document that already had a log when the patch was called can always be patched: nobody creates it any more, so
+					// the only reasons for a refusal are a lock lease that ran out or a caller that gave up (environment events)
+					env := false
+					for _, tr := range x.trace {
+						if strings.HasPrefix(tr, "~env:") {
+							env = true
+						}
+					}
+					if !env {
+						return viol("C19:rest-patch-of-existing-document-refused", "%s - the document existed (its log was not empty) when the patch was called and no lock lease ran out; schedule %v", m.patchRefused[0], x.trace)
+					}
+				}
+				if has(sa.AtEnd, "patched") {
+					// every patch that was answered with success was answered with its target, and its effect is in the log: after
+					// the closing syncs the stored document holds every member of the target (the scenarios' clients write other keys)
+					for _, pd := range m.patched {
+						if canonJSON(pd.answer) != canonJSON(pd.target) {
+							return viol("C19:rest-response-differs", "PatchDocument(%s, %s) answered %s; schedule %v", pd.key, pd.target, pd.answer, x.trace)
+						}
+						sv, serr := m.serverView(pd.coll, pd.key)
+						if serr != nil {
+							return viol("C19:rest-patched-document-not-rebuildable", "%v; schedule %v", serr, x.trace)
+						}
+						var want, got map[string]interface{}
+						json.Unmarshal([]byte(pd.target), &want)
+						if i := strings.Index(sv, "json="); i >= 0 {
+							js := sv[i+5:]
+							dec := json.NewDecoder(strings.NewReader(js))
+							dec.Decode(&got)
+						}
+						for k, wv := range want {
+							if jsonStr(got[k]) != jsonStr(wv) {
+								return viol("C19:rest-patch-answered-but-not-applied", "PatchDocument(%s, %s) was answered with success, but after all syncs the stored document reads %s (member %q should be %s); schedule %v", pd.key, pd.target, clip(sv, 400), k, jsonStr(wv), x.trace)
+							}
+						}
 					}
 				}
 				if has(sa.AtEnd, "nosnapop") {
